@@ -149,7 +149,7 @@ theorem spellAttr_facts (he : EnvFacts env) {s : FStack} {fs : Frames} {sc : Sco
     (spellAttr env s a).declares = none ∧ NSAttr.denote sc (spellAttr env s a) = attrStr env a ∧
       (spellAttr env s a).pfx.text = prefixText env p ∧
       ((spellAttr env s a).pfx.text ≠ [] → (sc.lookup (spellAttr env s a).pfx.text).isSome = true) := by
-  obtain ⟨h1, h2, h3, h4, h5⟩ := hrel.attribute he hp
+  obtain ⟨h1, h2, h3, h4, h5, _⟩ := hrel.attribute he hp
   obtain ⟨_, hx, hid⟩ := valueOK_attribute_facts hv
   have hpfx : (spellAttr env s a).pfx.text = prefixText env p := by simp [spellAttr, hp, okPrefix, sp0]
   have hloc : (spellAttr env s a).loc.text = env.localName a.1 := rfl
